@@ -158,6 +158,11 @@ class Stubs:
             return s
         s = L.str_of(v)
         ex.assume(L.slen(s) >= 1)
+        # str() of a number is a text that Decimal() reads back as that number (A-STR-ROUNDTRIP)
+        ex.assume(z3.Implies(z3.Or(L.is_Int(v), L.is_Bool(v)),
+                             z3.And(L.UF('str_is_int', I, B)(s), L.UF('int_of_strid', I, I)(s) == self.model.num_value_int(v))))
+        ex.assume(z3.Implies(L.is_Dec(v), z3.And(L.UF('str_is_dec', I, B)(s), L.UF('dec_of_strid', I, I)(s) == Val.d(v))))
+        ex.assume(z3.Implies(L.is_Float(v), L.UF('str_is_float_repr', I, B)(s)))
         ex.event('prim', 'str_of', v, L.StrV(s))
         return L.StrV(s)
 
@@ -180,7 +185,7 @@ class Stubs:
         if ex.branch(L.is_Int(v), 'int-of-int'):
             return v
         if ex.branch(L.is_Bool(v), 'int-of-bool'):
-            return L.IntV(self.model.num_value_int(v))
+            return L.IntV(self.model.num_int(ex, v))
         if ex.branch(L.is_Dec(v), 'int-of-dec'):
             d = Val.d(v)
             if not ex.branch(L.dec_finite(d), 'dec-finite'):
@@ -330,8 +335,7 @@ class Stubs:
         all_dec = L.UF('some_dec', I, z3.ArraySort(I, Val), B)(n, arr)
         ex.assume(z3.Implies(n == 0, r == L.IntV(0)))
         ex.assume(L.is_numeric(r))
-        ex.assume(z3.Implies(L.is_Dec(r), z3.And(L.dec_digits(Val.d(r)) >= 1,
-                                                 z3.Or(L.dec_digits(Val.d(r)) <= 28, n == 1))))
+        ex.assume(z3.Implies(L.is_Dec(r), z3.And(L.dec_digits(Val.d(r)) >= 1, L.dec_digits(Val.d(r)) <= 28)))
         ex.assume(z3.Implies(L.is_Int(r), L.int_digits(Val.i(r)) >= 1))
         ex.assume(z3.Not(L.is_Bool(r)))
         return r
@@ -493,6 +497,7 @@ class Stubs:
                 return L.IntV(i)
             return L.FloatV(L.UF('flt_round', I, I, I)(Val.fl(v), self.model.num_value_int(nd)))
         if ex.branch(z3.Or(L.is_Int(v), L.is_Bool(v)), 'round-int'):
+            ex.small_int_axioms(self.model.num_value_int(v))
             i = L.UF('int_round', I, Val, I)(self.model.num_value_int(v), nd)
             ex.assume(z3.And(L.int_digits(i) >= 1, L.int_digits(i) <= L.int_digits(self.model.num_value_int(v)) + 1))
             return L.IntV(i)
@@ -504,7 +509,7 @@ class Stubs:
         v = ex.to_val(args[0])
         ex.event('abs_of', v)
         if ex.branch(z3.Or(L.is_Int(v), L.is_Bool(v)), 'abs-int'):
-            i = self.model.num_value_int(v)
+            i = self.model.num_int(ex, v)
             r = z3.If(i < 0, -i, i)
             ex.assume(L.int_digits(r) == L.int_digits(i))
             return L.IntV(r)
@@ -555,7 +560,7 @@ class Stubs:
         if ex.branch(L.is_Dec(v), 'Decimal-of-dec'):
             return v
         if ex.branch(z3.Or(L.is_Int(v), L.is_Bool(v)), 'Decimal-of-int'):
-            i = self.model.num_value_int(v)
+            i = self.model.num_int(ex, v)
             d = L.dec_of_int(i)
             ex.assume(L.dec_digits(d) == L.int_digits(i))      # exact conversion, no rounding
             ex.assume(L.int_digits(i) >= 1)
@@ -564,8 +569,16 @@ class Stubs:
             return L.DecV(d)
         if ex.branch(L.is_Str(v), 'Decimal-of-str'):
             ex.may_raise(['ArithmeticError'], 'InvalidOperation: invalid literal')
-            d = L.dec_of_str(Val.s(v))
-            ex.assume(z3.And(L.dec_digits(d) >= 1, L.dec_digits(d) <= z3.If(L.slen(Val.s(v)) < 1, 1, L.slen(Val.s(v)))))
+            sid = Val.s(v)
+            d = L.dec_of_str(sid)
+            ex.assume(z3.And(L.dec_digits(d) >= 1, L.dec_digits(d) <= z3.If(L.slen(sid) < 1, 1, L.slen(sid))))
+            i = L.UF('int_of_strid', I, I)(sid)
+            ex.assume(z3.Implies(L.UF('str_is_int', I, B)(sid),
+                                 z3.And(d == L.dec_of_int(i), L.dec_digits(d) == L.int_digits(i), L.dec_integral(d), L.dec_finite(d))))
+            ex.assume(z3.Implies(L.UF('str_is_dec', I, B)(sid), d == L.UF('dec_of_strid', I, I)(sid)))
+            # repr() of a float has at most 17 significant digits
+            ex.assume(z3.Implies(L.UF('str_is_float_repr', I, B)(sid), L.dec_digits(d) <= 17))
+            ex.use_assumption('A-STR-ROUNDTRIP: Decimal(str(x)) == x for ints and finite Decimals (construction is exact)')
             return L.DecV(d)
         if ex.branch(L.is_Float(v), 'Decimal-of-float'):
             d = L.dec_of_flt(Val.fl(v))
@@ -663,7 +676,7 @@ class Stubs:
             ex.raise_('TypeError', 'takes exactly one argument')
         ex.event('floorceil_of', which, v)
         if ex.branch(z3.Or(L.is_Int(v), L.is_Bool(v)), 'floor-int'):
-            return L.IntV(self.model.num_value_int(v))
+            return L.IntV(self.model.num_int(ex, v))
         if ex.branch(L.is_Dec(v), 'floor-dec'):
             d = Val.d(v)
             ex.may_raise(['ValueError', 'OverflowError'], 'floor of NaN/Infinity')
